@@ -852,7 +852,7 @@ namespace
     }
 
     //=== exit: everything is freed at program exit ===//
-    int g_leak_fd = -1;
+    int  g_leak_fd = -1;
     void leak_to_fd(const allocator_info& info, std::ptrdiff_t amount)
     {
         char b[160];
@@ -862,6 +862,98 @@ namespace
             auto w = ::write(g_leak_fd, b, std::size_t(n));
             (void)w;
         }
+    }
+
+    // concurrent, balanced traffic on a stateless low-level allocator: the process-wide leak count must be exactly zero at exit
+    // (the allocators are "safe to use concurrently as they are", and the net reported at exit is exact)
+    template <class A>
+    void stateless_exit_kind(const args& a, const char* name)
+    {
+        std::string kind = std::string("stateless-exit/") + name;
+        if (a.kind != "all" && a.kind != kind)
+            return;
+        for (long c = a.from; c < a.to; ++c)
+            run_case(kind, c, [&] {
+                auto r    = case_rng(a.seed, a.group, kind, c);
+                int  n    = int(r.range(4, 12));
+                auto seed = r.next();
+                bool leak = c % 4 == 3; // sometimes one known block is kept: the report must name exactly it
+                op("child process: %d threads x balanced traffic on %s%s; leak report at exit", n, name, leak ? " + one 100-byte node kept" : "");
+                int fds[2];
+                if (pipe(fds) != 0)
+                    return;
+                fflush(nullptr);
+                pid_t pid = fork();
+                if (pid == 0)
+                {
+                    close(fds[0]);
+                    g_leak_fd = fds[1];
+                    set_leak_handler(leak_to_fd);
+                    signal(SIGABRT, SIG_DFL);
+                    signal(SIGSEGV, SIG_DFL);
+                    std::vector<std::thread> th;
+                    std::atomic<int>         ready{0};
+                    for (int t = 0; t < n; ++t)
+                        th.emplace_back([&, t] {
+                            A   al;
+                            rng rr(seed + std::uint64_t(t));
+                            ready.fetch_add(1);
+                            while (ready.load() < n)
+                            {
+                            }
+                            for (int i = 0; i < 20000; ++i)
+                            {
+                                auto  size = rr.range(1, 64);
+                                void* p    = al.allocate_node(size, 8);
+                                al.deallocate_node(p, size, 8);
+                            }
+                        });
+                    for (auto& t : th)
+                        t.join();
+                    if (leak)
+                    {
+                        A al;
+                        (void)al.allocate_node(100, 8);
+                    }
+                    std::exit(0);
+                }
+                close(fds[1]);
+                std::string out;
+                char        buf[256];
+                for (;;)
+                {
+                    auto got = ::read(fds[0], buf, sizeof buf);
+                    if (got <= 0)
+                        break;
+                    out.append(buf, std::size_t(got));
+                }
+                close(fds[0]);
+                int st = 0;
+                waitpid(pid, &st, 0);
+                count("exit_children");
+                count("stateless_exit_ops", 20000ll * n);
+#if FOONATHAN_MEMORY_DEBUG_LEAK_CHECK
+                auto prop = cx().prop == "C15" ? "C15" : "C13";
+                for (auto& ch : out)
+                    if (ch == '\n')
+                        ch = ';';
+                if (!leak && !out.empty())
+                    viol(prop, std::string(prop) + "/" + kind + "/concurrent-count-wrong",
+                         "balanced allocate/deallocate traffic from %d threads left a non-zero process-wide count at exit: %s", n, out.c_str());
+                if (leak)
+                {
+                    long amount = 0;
+                    auto sp     = out.rfind(' ');
+                    if (sp != std::string::npos)
+                        amount = atol(out.c_str() + sp + 1);
+                    bool exact = detail::debug_fence_size == 0 || std::string(name) == "virtual_memory_allocator";
+                    if (out.empty() || (exact ? amount != 100 : amount < 100 || amount > 100 + 64))
+                        viol(prop, std::string(prop) + "/" + kind + "/concurrent-count-wrong",
+                             "after balanced traffic from %d threads plus one 100-byte node that was kept, the report at exit says: '%s'", n, out.c_str());
+                }
+#endif
+                flag("threads");
+            });
     }
 
     void exit_group(const args& a)
@@ -972,6 +1064,13 @@ int main(int argc, char** argv)
         free_group(a);
     else if (a.group == "exit")
         exit_group(a);
+    else if (a.group == "statelessexit")
+    {
+        stateless_exit_kind<heap_allocator>(a, "heap_allocator");
+        stateless_exit_kind<malloc_allocator>(a, "malloc_allocator");
+        stateless_exit_kind<new_allocator>(a, "new_allocator");
+        stateless_exit_kind<virtual_memory_allocator>(a, "virtual_memory_allocator");
+    }
     finish();
     return 0;
 }
